@@ -12,9 +12,10 @@ C04_NAMES = ("ens.hold", "resp.move", "resp.drain", "resp.fill", "resp.serve", "
 
 def select(h, prop):
     """keep only the obligations belonging to `prop` (C03 data clauses vs C04 handshake/progress clauses)"""
-    if isinstance(h, dict):      # a case that already produced results (e.g. the design could not be elaborated: reported as such) - C04 gets nothing from it
-        return h if prop != "C04" else dict(results=[], functions=[], samples=[])
     is4 = lambda n: any(n.startswith(p) for p in C04_NAMES)
+    if isinstance(h, dict):      # a case that already produced results (executed structural clauses, or a design that could not be elaborated): split by clause name
+        keep = [r for r in h.get("results", []) if is4(r["name"]) == (prop == "C04") or (prop != "C04" and r.get("kind") == "harness")]
+        return dict(h, results=keep)
     keep = (lambda n: is4(n)) if prop == "C04" else (lambda n: not is4(n))
     for d in (h.ensures, h.seqs, h.responds, h.findings):
         for n in list(d):
@@ -41,11 +42,11 @@ def hold_clause(h, source, name="ens.hold"):
     stalled = z3.And(b(h.v(source.valid)), z3.Not(b(h.v(source.ready))))
     h.ensure_seq(name, lambda at: z3.Implies(at(stalled, 0), z3.And(at(b(h.v(source.valid)), 1), at(tok(h, source), 1) == at(tok(h, source), 0))))
 
-def fifo_like(name, dut, cap, hints=None, bypass=False, N=None, sink=None, source=None, extra_inputs=(), xform=None, auto=True, latency=0):
+def fifo_like(name, dut, cap, hints=None, bypass=False, N=None, sink=None, source=None, extra_inputs=(), xform=None, auto=True, latency=0, clock="sys"):
     """FIFO-queue refinement: ghost queue q[0..cap] (cap+1 slots: one slack), qlen.
     xform(token_term) -> token_term : the documented function applied to each token (identity by default)."""
     sink = sink or dut.sink; source = source or dut.source
-    h = HwCheck(name, dut, ep_inputs(sink, source) + list(extra_inputs))
+    h = HwCheck(name, dut, ep_inputs(sink, source) + list(extra_inputs), clock=clock)
     W = tok(h, sink).size(); CAPG = cap + 1; LW = max(3, (CAPG + 1).bit_length())
     qlen = h.ghost("qlen", LW); q = [h.ghost(f"q{i}", W) for i in range(CAPG)]
     in_fire, out_fire = fire(h, sink), fire(h, source)
